@@ -169,16 +169,28 @@ func fmtApply(state int, kind string, b []bool) int {
 	return state
 }
 
+// classifyShape names the format a payload looks like (for messages and case signatures; multi-line
+// messages and error dumps of testing-mode worlds are allowed for).
 func classifyShape(p []byte) int {
 	switch {
 	case bytes.Contains(p, []byte("\x1b[")):
 		return fmtColor
 	case len(p) > 2 && p[0] == '{' && bytes.HasSuffix(p, []byte("}\n")):
 		return fmtJSON
-	case bytes.HasPrefix(p, []byte("time=")) && logfmtLine(p):
+	case bytes.HasPrefix(p, []byte("time=")):
 		return fmtLogfmt
 	}
 	return -1
+}
+
+// strictShape is classifyShape for C11's single-line probes: a logfmt record must be a
+// well-formed line of key=value pairs from beginning to end.
+func strictShape(p []byte) int {
+	s := classifyShape(p)
+	if s == fmtLogfmt && !logfmtLine(p) {
+		return -1
+	}
+	return s
 }
 
 // logfmtLine: one line of space-separated key=value pairs (values may be double-quoted with
@@ -334,7 +346,7 @@ func (p *C11) Check(sc *scen.Scenario, run *orch.Run, env *orch.Env) []orch.Viol
 				out = append(out, orch.Violation{Rule: "C11.probe", Witness: "count", Detail: fmt.Sprintf("probe on logger %d produced %d writes", op.L, len(o.Writes))})
 				continue
 			}
-			shape := classifyShape(o.Writes[0].P)
+			shape := strictShape(o.Writes[0].P)
 			if shape != st {
 				sh := "unrecognised"
 				if shape >= 0 {
